@@ -3,7 +3,7 @@
 (outside /repo and /verif, removed afterwards) and checks that the named property check
 reports a violation (exit 1). Usage: selftest.py [name-substring ...]"""
 import json, os, subprocess, sys, shutil, glob
-SCR = '/tmp/verif_selftest_wt'
+SCR = '/tmp/verif_selftest_wt_%d' % os.getpid()  # one scratch worktree per run, so runs can overlap
 def sh(cmd, **kw):
     return subprocess.run(cmd, shell=True, capture_output=True, text=True, **kw)
 def main():
